@@ -9,7 +9,7 @@ from sim.seams import WORLD, install, import_pyscsi
 
 ID = "C18"
 LEVEL = "exploration"
-COUNTS = {"quick": 6000, "thorough": 600000}
+COUNTS = {"quick": 6000, "thorough": 300000}
 RULE = ("seeded histories: 1-4 Enums alive at once, built from a dict, from keywords or by an OpCode object as its service-action table, with 0-8 entries (ints with repeated values, "
         "strings, bytes, tuples, None, nested dicts, OpCode objects; identifier and non-identifier names such as '5.25', 'CD-I', '_RESERVED', 'name', 'kwargs'), then "
         "0-30 operations from {attribute read, E[value], keys, add, remove, add existing, remove missing, build another Enum, the library's "
